@@ -10,14 +10,22 @@ def _components(a, default):
     return default
 
 
+import os
+
+# all driver-based checks share one scratch slot (identical injected sources => one incremental build);
+# set VERIF_SLOT to run several of them concurrently
+def slot(default="ws"):
+    return os.environ.get("VERIF_SLOT", default)
+
+
 def c02(res, tier, a):
     comps = _components(a, ["kernels"])
-    with Scratch("C02") as sc:
+    with Scratch(slot()) as sc:
         ws.inject(sc)
         drv = ws.Driver(ws.build_driver(sc))
         cov = {}
         if "kernels" in comps:
-            k = kernels.Kernels(sc, drv, res, tier)
+            k = kernels.Kernels(sc, drv, res, tier, props=("C02",))
             k.load(ws)
             cov.update(k.run_all())
         res.coverage.update(cov)
@@ -25,15 +33,48 @@ def c02(res, tier, a):
         res.coverage.setdefault("disagreements_checked", cov.get("kernel_obligations", 0))
 
 
+def c03(res, tier, a):
+    comps = _components(a, ["kernels"])
+    with Scratch(slot()) as sc:
+        ws.inject(sc)
+        drv = ws.Driver(ws.build_driver(sc))
+        cov = {}
+        if "kernels" in comps:
+            k = kernels.Kernels(sc, drv, res, tier, props=("C03",))
+            k.load(ws)
+            cov.update(k.run_all())
+        res.coverage.update(cov)
+        res.coverage["states"] = max(1, sum(e["paths"] for e in cov.get("kernels_encoded", [])))
+        res.coverage["transitions"] = max(1, cov.get("kernel_obligations", 0) + len(cov.get("kernels_encoded", [])))
+        res.coverage["traces_validated_against_impl"] = cov.get("translator_validation_points", 0)
+        res.coverage["explanation"] = "states = MIR paths of the encoded kernels; transitions = panic-reachability obligations + kernels; every MIR assert/panic block is an obligation"
+
+
+def c06(res, tier, a):
+    from checks import c06 as m
+    with Scratch(slot()) as sc:
+        ws.inject(sc)
+        drv = ws.Driver(ws.build_driver(sc))
+        m.run(res, tier, sc, drv, ws)
+
+
 def c07(res, tier, a):
     from checks import c07 as m
-    with Scratch("C07") as sc:
+    with Scratch(slot()) as sc:
         ws.inject(sc)
         drv = ws.Driver(ws.build_driver(sc))
         m.run(res, tier, sc, drv)
 
 
+def c17(res, tier, a):
+    from checks import c17 as m
+    m.run(res, tier, a)
+
+
 CHECKS = {
+    "C17": ("model_checking", c17),
+    "C06": ("model_checking", c06),
     "C07": ("other", c07),
     "C02": ("translation_validation", c02),
+    "C03": ("model_checking", c03),
 }
